@@ -129,10 +129,10 @@ def s2(ck, an):
 def s3(ck, an):
     for name, want in (("static_hashing", "self.lead_contract()"), ("symbol", "self.lead_contract().symbol"), ("symbol_short", "self.lead_contract().symbol_short")):
         fa = an.fa(f"FutureChain.{name}")
-        r = [ast.unparse(x.value) for x in returns_in(fa)]
-        ck.check(r == [want], "ARGFLOW", f"S3.chain-{name}-follows-lead", fa.f.short, fa.f.loc, f"FutureChain.{name} is the current lead's", f"FutureChain.{name} returns {r}", construct=f"return {want}")
+        r = ret_canons(fa)
+        ck.check(r == [specv(fa, want).key()], "ARGFLOW", f"S3.chain-{name}-follows-lead", fa.f.short, fa.f.loc, f"FutureChain.{name} is the current lead's", f"FutureChain.{name} returns {r}", construct=f"return {want}")
     fa = an.fa("AbstractContract.static_hashing")
-    r = [ast.unparse(x.value) for x in returns_in(fa)]
+    r = ret_canons(fa)
     ck.check(r == ["self"], "ARGFLOW", "S3.plain-contract-static", fa.f.short, fa.f.loc, "ordinary contracts hash as themselves", f"static_hashing returns {r}", construct="return self")
     # users of contract-keyed containers normalise
     fg = an.fa("Exchange.__getitem__")
